@@ -463,3 +463,25 @@ def run(idx, rep, tier):
     r2(k)
     r3(k)
     r4(k)
+    # R5: the keys taken into use after a re-exchange are the RFC 4253 §7.2
+    # keys: = C02.R2 (compute_key hashes K, H, letter, session id in that
+    # order; on the first exchange H == session id hides a swap)
+    from .c02 import r2 as c02r2
+    rep.rule('C11.R5', 'key schedule (= C02.R2), including the order of K, '
+             'H, letter and session id inside Kex.compute_key, which only '
+             'matters from the second exchange on')
+    before = len(rep.obligations)
+    c02r2(k)
+    for o in rep.obligations[before:]:
+        o.rule = 'C11.R5'
+    # R6: while our own re-exchange is in flight the peer's ordinary
+    # traffic is still accepted: = the liveness rows of C06.R1
+    from .c06 import r1 as c06r1
+    rep.rule('C11.R6', 'receive gate (= C06.R1): connection-layer packets '
+             'are accepted whenever receive keys are in effect, whatever the '
+             'state of the local send side (a re-exchange we started must '
+             'not make the peer\'s in-flight data a protocol error)')
+    before = len(rep.obligations)
+    c06r1(k)
+    for o in rep.obligations[before:]:
+        o.rule = 'C11.R6'
